@@ -72,7 +72,7 @@ def cfgOf (forcing fs : Bool) (w : ℕ) : NS2Cfg ℚ :=
   { forcing := forcing, freeStream := fs, width := w, ny := 9, nx := 11, dt := 1, dx := 1, nu := 1, rho := 1,
     ux := 0, uy := 0, x0 := 0, x1 := 1, y0 := 0, y1 := 1 }
 
-def trivT : Transc ℚ := ⟨fun x => x, 3⟩
+def trivT : Transc ℚ := { sin := fun x => x, pi := 3 }
 
 def allCfgs : List (Bool × Bool × ℕ) :=
   [false, true].flatMap fun a => [false, true].flatMap fun b => (List.range 7).map fun w => (a, b, w)
